@@ -49,6 +49,8 @@ def make_array(spec):
         rows = rows[perm][: (2 * len(rows)) // 3]          # shuffled and with a third of the rows removed
     elif spec.get("order") == "repeats":
         rows = np.concatenate([rows[:3], rows[:1], rows[1:2], rows[:1], rows[40:43], rows[2:3]])
+    if spec.get("rows"):           # exactly this many rows (row counts that coincide with the row length 7, 3, 4 ...)
+        rows = rows[5:5 + spec["rows"]]
     return rows
 
 
@@ -200,14 +202,14 @@ def ptwriter_case(case):
         def frames_of(U):
             return np.array([np.asarray(ts.positions, dtype=float).copy() for ts in U.trajectory])
 
-        for L in (1, 2, 3):
+        for L in (1, 2, 3)[:case.get("maxlen", 3)]:
             for word in itertools.product(("ws", "pt", "wf", "wd"), repeat=L):
                 if L == 3 and word.count("wd") > 1:
                     continue
                 words_run += 1
                 key = f"C10|ptwriter|m1={m1}|m2={m2}|word={'>'.join(word)}"
                 try:
-                    w = PtWriter(p1, p2, 30.0, gpath)
+                    w = PtWriter(p1, p2, case.get("cell", 30.0), gpath)
                     for i, ev in enumerate(word):
                         if ev == "ws":
                             w.write_structure(7.5, os.path.join(d, f"s_{i}.gro"))
@@ -270,6 +272,10 @@ def cases(tier):
         for m1 in ("H2O", "He"):
             for a in arrays:
                 out.append({"m1": m1, "m2": m2, "array": a})
+    # every row count 1..10 (a 7-row array is as long as a row is wide; 3 and 4 match the position / quaternion widths)
+    for k in range(1, 11):
+        out.append({"m1": "H2O", "m2": "CHFClBr", "array": {"type": "nongrid", "name": f"nongrid_rows{k}", "n_pos": 6,
+                                                            "n_generic": 8, "rows": k}})
     # the same molecules read from other file formats (gro: nanometres on disk; pdb: fixed columns)
     for m1, m2 in (("H2O@gro", "CHFClBr@gro"), ("H2O@pdb", "CHFClBr@pdb"), ("H2O", "NH3@gro"), ("H2O@gro", "HF@pdb")):
         for a in (arrays[1], arrays[3]):
@@ -288,6 +294,9 @@ def run(ctx):
     wcs = [{"ptwriter": True, "m1": m1, "m2": m2, "array": {"type": "grid", "name": "grid_cube4D4_ico5_2r", "b": "cube4D_4",
                                                               "o": "ico_5", "t": "[0.2,0.45]"}}
            for m1, m2 in (("H2O", "NH3"), ("He", "CHFClBr"))]
+    # grid positions beyond half the periodic cell handed to the writer (placements are NOT wrapped into the cell)
+    wcs.append({"ptwriter": True, "m1": "H2O", "m2": "HF", "cell": 30.0, "maxlen": 2,
+                "array": {"type": "grid", "name": "grid_cube4D3_ico6_far", "b": "cube4D_3", "o": "ico_6", "t": "[0.5, 2.0, 4.1]"}})
     res = ctx.pmap(run_case_wrapped, cs, chunksize=1, recheck=2) + ctx.pmap(ptwriter_case, wcs, chunksize=1, recheck=1)
     cs = cs + wcs
     frames = sum(r["frames"] for r in res)
